@@ -400,7 +400,19 @@ func cmdCheck(args []string) int {
 			} else {
 				nOK := len(vecs) - len(viols)
 				for i := 0; i < nOK; i++ {
-					if d := compareNative(vecs[i], nres[i]); d != "" {
+					d := compareNative(vecs[i], nres[i])
+					if d != "" && mismatches < 8 {
+						// Run the vector again, alone in a fresh test process: state that survives from one vector to the
+						// next in the shared process (sync.Pool contents, package-level caches) is not part of the path
+						// the engine explored. Only a difference that persists in isolation is a translation mismatch.
+						if r2, err2 := runNative(ov, fnPkg[vecs[i].Harness], []*Vector{vecs[i]}); err2 == nil && len(r2) == 1 {
+							if d2 := compareNative(vecs[i], r2[0]); d2 == "" {
+								fmt.Printf("  note: %s vector %v differed natively in the shared test process (%s) and agreed when run alone\n", vecs[i].Harness, vecs[i].Values, d)
+								d = ""
+							}
+						}
+					}
+					if d != "" {
 						mismatches++
 						if len(nativeNotes) < 5 {
 							nativeNotes = append(nativeNotes, fmt.Sprintf("%s vector %v: %s", vecs[i].Harness, vecs[i].Values, d))
